@@ -462,6 +462,8 @@ func (t *WeightedMerkleTrie) RollbackTrie(node Node) {
 		batcher.Commit(false) //nolint:errcheck
 	}
 	t.created = nil
+	// what the rolled-back commit superseded is live again: nothing of it may stay staged for deletion
+	t.tempDeleted = nil
 	clear(t.deleted)
 }
 
